@@ -136,6 +136,7 @@ type Exec struct {
 	reach       map[int]map[int]bool // reach[a][b]: block a reaches block b in the top-frame CFG (reflexive)
 	specAppBlk  map[string]int
 	trusted     map[string]bool // trusted (assumed) contracts used
+	cardFacts   map[string]bool
 	axiomRec    map[string]bool
 	axiomIdx    map[string]int
 	axioms      map[string]string // definitional axioms of opaque spec functions, by SMT function name
